@@ -32,6 +32,8 @@ def junk(rng, allow_sync=True):
 
 def random_log(rng, nmax=12, nsrc=None, base8=None, types=None, untimed_prob=0.45, junk_prob=0.3, invalid_prob=0.15):
     n = rng.randint(0, nmax)
+    if n == 0:
+        return []     # (a file of 1 byte makes the indexer raise ValueError: np.empty(-2) — C08's subject, not generated here)
     nsrc = nsrc or rng.choice([1, 1, 2, 3])
     srcs = rng.sample([0, 1, 2, 5, 7], nsrc)
     if base8 is None:
@@ -85,7 +87,7 @@ def late_source_log(rng, n=12):
         if i % 4 == 1:
             spec.append(['m', EVENT, 1, None])
     spec.append(['m', POSE, 2, t8 + 8])
-    spec.append(['m', EVENT, 2, None])
+    spec.append(['m', EVENT, 1, None])
     spec.append(['m', POSE, 1, t8 + 16])
     return spec
 
@@ -189,19 +191,24 @@ def run_impl(script, cases, tmpdir, tag, nproc=None, timeout=1500):
     """cases: list of dicts with 'id' and 'logkey'.  Cases of the same log go to the same shard, so every log file is
     written once.  Returns {id: output dict}."""
     nproc = nproc or vf.NCPU
-    logdir = os.path.join(tmpdir, 'logs')
-    os.makedirs(logdir, exist_ok=True)
     groups = {}
     for c in cases:
         groups.setdefault(c['logkey'], []).append(c)
-    k = max(1, min(nproc, len(groups)))
+    # a log with very many cases is split into chunks; every shard process writes its own copy of the log files
+    chunk = max(50, len(cases) // (4 * nproc))
+    chunks = []
+    for g in groups.values():
+        chunks += [g[i:i + chunk] for i in range(0, len(g), chunk)]
+    k = max(1, min(nproc, len(chunks)))
     shards = [[] for _ in range(k)]
-    for g in sorted(groups.values(), key=len, reverse=True):
+    for g in sorted(chunks, key=len, reverse=True):
         min(shards, key=len).extend(g)
     procs = []
     for i, sh_ in enumerate(shards):
         if not sh_:
             continue
+        logdir = os.path.join(tmpdir, 'logs', '%s-%d' % (tag, i))
+        os.makedirs(logdir, exist_ok=True)
         cp = os.path.join(tmpdir, '%s-cases-%d.jsonl' % (tag, i))
         op = os.path.join(tmpdir, '%s-out-%d.jsonl' % (tag, i))
         with open(cp, 'w') as f:
